@@ -73,3 +73,182 @@ def glob_vs_spec(item):
             except Exception:
                 out.append(dict(tree=tname, pattern=txt, flags=flags, fl=LC.flagnames(flags), error=traceback.format_exc()[-800:]))
     return out
+
+
+def small_patterns():
+    """A compact, representative set of path patterns (ASTs) for the heavier per-case harnesses."""
+    from .. import patsets
+    L, mk = patsets.L, patsets.mkpath
+    a, b, d, star, q, gs, gsl = (L('a'),), (L('b'),), (L('d'),), (('star',),), (('q',),), (('gs',),), (('gsl',),)
+    dot, dd, hid = (L('.'),), (L('.'), L('.')), (L('.'), ('star',))
+    txt = (('star',), L('.'), L('t'), L('x'), L('t'))
+    ld, lf, up = (L('l'), L('d')), (L('l'), L('f')), (L('u'), L('p'))
+    neg = (('ext', '!', ((L('a'),),)),)
+    alt = (('ext', '@', ((L('a'),), (L('d'),), (L('l'), ('star',)))),)
+    br = (('br', False, (('ch', 'a'), ('ch', 'd'), ('ch', 'x'))),)
+    pats = [mk([a]), mk([star]), mk([q]), mk([hid]), mk([txt]), mk([gs]), mk([gsl]), mk([gs], trail=True), mk([star], trail=True), mk([d], trail=True),
+            mk([d, star]), mk([d, gs]), mk([gs, a]), mk([gs, star]), mk([gs, txt]), mk([star, star]), mk([star, a]), mk([d, q]), mk([gs, d, gs]), mk([gs, a, gs, a]),
+            mk([ld, star]), mk([ld, gs]), mk([gs, lf]), mk([gs, (L('x'),)]), mk([gs, (L('y'),)]), mk([d, up, star]), mk([gs, up, star]), mk([gsl, (L('x'),)]),
+            mk([gsl, star]), mk([dot, star]), mk([dd, star]), mk([d, dd, star]), mk([star, dot]), mk([gs, hid]), mk([hid, star]), mk([neg]), mk([gs, neg]),
+            mk([alt]), mk([alt, star]), mk([br]), mk([gs, br], trail=True), mk([d, (L('s'),), star]), mk([star, (L('s'),), gs]), mk([gs, (L('s'),), gs, (L('y'),)]),
+            mk([gs, d, gs, (L('y'),)]), mk([d, gs, (L('s'),), gs, (L('y'),)]), mk([a], trail=True), mk([lf], trail=True), mk([ld], trail=True),
+            mk([(L('d'), L('a'), L('n'), L('g'))]), mk([gs, (L('d'), L('a'), L('n'), L('g'))]), mk([d, star], dbl=True), mk([(L('S'), L('u'), L('b')), star]),
+            mk([(L('n'), L('o'), L('n'), L('e'))]), mk([a, (L('r'),), gs, (L('t'),)]), mk([gs, (L('r'),), gs, (L('t'),)]), mk([gs, (L('l'), L('r')), gs])]
+    return pats
+
+
+def globmatch_vs_glob(item):
+    """C04: set(glob(p,f)) vs {c in candidates | globmatch(c, p, f|REALPATH, root)}, plus the REALPATH clauses."""
+    tname, spec, cases = item
+    out = []
+    cyclic = trees.is_cyclic(spec)
+    with trees.Tree(spec) as t:
+        ents = t.entries()
+        for els, flags, excl in cases:
+            txt = P.render(els)
+            follow = bool(flags & G.L)
+            if cyclic and (follow or (flags & G.GL and ('***' in txt or flags & G.X))):
+                continue
+            try:
+                kw = dict(flags=flags | G.U, root_dir=t.root)
+                if excl:
+                    kw['exclude'] = excl
+                got_raw = with_alarm(lambda: G.glob(txt, **kw))
+                got = {specwalk.norm_result(x) for x in got_raw}
+                cands = set(ents) | {e + '/' for e in ents if os.path.isdir(os.path.join(t.root, e))} | set(got_raw) | {'nonexistent', 'd/nonexistent', 'nonexistent/'}
+                kw2 = dict(kw, flags=flags | G.U | G.P)
+                m = set()
+                absolute_hit = []
+                for c in sorted(cands):
+                    if with_alarm(lambda: G.globmatch(c, txt, **kw2)):
+                        m.add(specwalk.norm_result(c))
+                        if not os.path.lexists(os.path.join(t.root, c)):
+                            out.append(dict(tree=tname, pattern=txt, flags=flags, fl=LC.flagnames(flags), exclude=excl, kind='nonexistent-matches', witness=c))
+                for c in sorted(ents)[:6]:
+                    ac = os.path.join(t.root, c)
+                    if not txt.startswith('/') and G.globmatch(ac, txt, **kw2):
+                        absolute_hit.append(ac)
+                if absolute_hit:
+                    out.append(dict(tree=tname, pattern=txt, flags=flags, fl=LC.flagnames(flags), exclude=excl, kind='relative-pattern-matches-absolute-path', witness=absolute_hit[0]))
+                if flags & G.I:
+                    # C13: case variants of one path count as one under the case rule in force
+                    lg, lm = {x.lower() for x in got}, {x.lower() for x in m}
+                    only_glob = sorted(x for x in got if x.lower() not in lm)
+                    only_match = sorted(x for x in m if x.lower() not in lg)
+                else:
+                    only_glob = sorted(got - m)
+                    only_match = sorted(m - got)
+                out.append(dict(tree=tname, pattern=txt, flags=flags, fl=LC.flagnames(flags), exclude=excl, kind='compare', only_glob=only_glob, only_match=only_match, n=len(got)))
+            except CaseTimeout:
+                out.append(dict(tree=tname, pattern=txt, flags=flags, fl=LC.flagnames(flags), exclude=excl, kind='timeout'))
+            except Exception:
+                out.append(dict(tree=tname, pattern=txt, flags=flags, fl=LC.flagnames(flags), exclude=excl, kind='error', error=traceback.format_exc()[-800:]))
+    return out
+
+
+class _PL:
+    def __init__(self, p):
+        self.p = p
+
+    def __fspath__(self):
+        return self.p
+
+
+def wellformed_and_roots(item):
+    """C12: every result exists, spelling, trailing separator rule, NODIR, iglob == glob, root given 5 ways."""
+    tname, spec, cases = item
+    out = []
+    cyclic = trees.is_cyclic(spec)
+    cwd0 = os.getcwd()
+    with trees.Tree(spec) as t:
+        for txt, flags in cases:
+            follow = bool(flags & G.L)
+            if cyclic and (follow or (flags & G.GL and ('***' in txt or flags & G.X))):
+                continue
+            base = dict(tree=tname, pattern=txt, flags=flags, fl=LC.flagnames(flags))
+            try:
+                pat = txt.replace('$ROOT', t.root)
+                absolute = pat.startswith('/')
+                res = with_alarm(lambda: G.glob(pat, flags=flags | G.U, root_dir=t.root))
+                bad = []
+                trail_pat = pat.rstrip('*').endswith('/') if False else pat.endswith('/')
+                for x in res:
+                    full = x if os.path.isabs(x) else os.path.join(t.root, x)
+                    if not os.path.lexists(full):
+                        bad.append(('does-not-exist', x))
+                    if os.path.isabs(x) != absolute:
+                        bad.append(('spelling', x))
+                    isdir = os.path.isdir(full)
+                    if x.endswith('/') and not isdir:
+                        bad.append(('separator-on-non-directory', x))
+                    if isdir and (trail_pat or flags & G.K) and not x.endswith('/'):
+                        bad.append(('directory-without-separator', x))
+                    if isdir and flags & G.O:
+                        bad.append(('directory-under-NODIR', x))
+                ires = list(G.iglob(pat, flags=flags | G.U, root_dir=t.root))
+                if ires != res:
+                    bad.append(('iglob-differs', str(ires[:5])))
+                variants = {}
+                variants['bytes'] = [os.fsdecode(x) for x in G.glob(os.fsencode(pat), flags=flags | G.U, root_dir=os.fsencode(t.root))]
+                variants['pathlike'] = G.glob(pat, flags=flags | G.U, root_dir=_PL(t.root))
+                fd = os.open(t.root, os.O_RDONLY | os.O_DIRECTORY)
+                try:
+                    variants['dir_fd'] = G.glob(pat, flags=flags | G.U, dir_fd=fd)
+                finally:
+                    os.close(fd)
+                os.chdir(t.root)
+                try:
+                    variants['cwd'] = G.glob(pat, flags=flags | G.U)
+                finally:
+                    os.chdir(cwd0)
+                for k, v in variants.items():
+                    if v != res:
+                        bad.append((f'root-as-{k}-differs', f'{v[:6]} vs {res[:6]}'))
+                out.append(dict(base, bad=bad, n=len(res)))
+            except CaseTimeout:
+                os.chdir(cwd0)
+                out.append(dict(base, bad=[('timeout', '')], n=0))
+            except Exception:
+                os.chdir(cwd0)
+                out.append(dict(base, error=traceback.format_exc()[-800:]))
+    return out
+
+
+def multi_pattern(item):
+    """C13: union / exclusion / uniqueness / NOUNIQUE concatenation."""
+    tname, spec, cases = item
+    out = []
+    with trees.Tree(spec) as t:
+        for pats, excl, flags, inline in cases:
+            base = dict(tree=tname, pattern=str(pats), exclude=str(excl), flags=flags, fl=LC.flagnames(flags), inline=inline)
+            try:
+                f = flags | G.U
+                kw = dict(flags=f, root_dir=t.root)
+                if inline and excl:
+                    full = list(pats) + ['!' + e for e in excl]
+                    res = with_alarm(lambda: G.glob(full, flags=f | G.N, root_dir=t.root))
+                else:
+                    res = with_alarm(lambda: G.glob(list(pats), exclude=list(excl) if excl else None, **kw))
+                single = [G.glob(p, flags=(f & ~G.Q), root_dir=t.root) for p in pats]
+                # expansion of BRACE / SPLIT inclusion patterns is part of the list: compare against the expanded singles
+                exf = (f | G.D) & ~(G.N | G.A | G.Q | G.O)
+                excluded = lambda x: any(G.globmatch(x if not os.path.isdir(os.path.join(t.root, x)) or x.endswith('/') else x + '/', e, flags=exf) for e in (excl or []))
+                bad = []
+                key = (lambda x: x.lower()) if (flags & G.I) else (lambda x: x)
+                want_concat = [x for s in single for x in s if not excluded(x)]
+                if flags & G.Q:
+                    if res != want_concat:
+                        bad.append(('NOUNIQUE-is-not-the-concatenation', f'{res[:8]} vs {want_concat[:8]}'))
+                else:
+                    if len({key(x) for x in res}) != len(res):
+                        dup = sorted(x for x in res if sum(1 for y in res if key(y) == key(x)) > 1)
+                        bad.append(('path-returned-twice', str(dup[:4])))
+                    if {key(x) for x in res} != {key(x) for x in want_concat}:
+                        a, b = {key(x) for x in res}, {key(x) for x in want_concat}
+                        bad.append(('not-the-union-minus-exclusions', f'extra={sorted(a - b)[:5]} missing={sorted(b - a)[:5]}'))
+                out.append(dict(base, bad=bad, n=len(res)))
+            except CaseTimeout:
+                out.append(dict(base, bad=[('timeout', '')], n=0))
+            except Exception:
+                out.append(dict(base, error=traceback.format_exc()[-800:]))
+    return out
